@@ -125,7 +125,7 @@ impl LoopCampaign {
     let span = t.max(1);
     let kbd_end_at = if rng.chance(1, 8) { Some(rng.below(span as usize + 1) as u64) } else { None };
     let tab_end_at = if has_tablet && rng.chance(1, 16) { Some(rng.below(span as usize + 1) as u64) } else { None };
-    let case = CaseB { layout, layout_name: name, kbd, tab, has_tablet, cfg, tape: vec![], fail_at: None, extra_ticks: rng.below(6) as u32, kbd_end_at, tab_end_at, hybrid: self.hybrid, write_fault: None, read_fault: None, sysread_fault: None, syswrite_fault: None, poll_fault: None, syspoll: self.hybrid && (self.force_syspoll || rng.chance(1, 2)) };
+    let case = CaseB { layout, layout_name: name, kbd, tab, has_tablet, cfg, tape: vec![], fail_at: None, extra_ticks: rng.below(6) as u32, kbd_end_at, tab_end_at, hybrid: self.hybrid, write_fault: None, read_fault: None, sysread_fault: None, syswrite_fault: None, syswrite_short: None, poll_fault: None, syspoll: self.hybrid && (self.force_syspoll || rng.chance(1, 2)) };
     // one hybrid run in eight: a write(2) on the virtual keyboard fails at some point, for good or for a moment
     let mut case = case;
     if self.hybrid && !self.write_faults && rng.chance(1, 8) { case.syswrite_fault = Some((rng.below(30), [0u32, 0, 1, 1, 2, 3][rng.below(6)], rng.below(4) as u8)); }
@@ -414,8 +414,12 @@ impl Campaign for LoopCampaign {
       // from every write(2) call of this schedule on, the writes fail (queue full / I/O error), or one call is interrupted
       if verdict.is_none() {
         'outer5: for k in 0..out.stats.sys_writes as usize {
-          for (count, kind) in [(0u32, 0u8), (0, 1), (1, 3)] {
-            let mut ck = case.clone(); ck.syswrite_fault = Some((k, count, kind));
+          // the last one: the call before transfers only one record (a short count, which uinput never
+          // produces) and what follows it fails — a writer that completes short writes must report that
+          // failure too. (An interrupted write that is retried and delivers the batch once is accepted.)
+          for (count, kind, short) in [(0u32, 0u8, None), (0, 1, None), (1, 3, None), (0, 1, Some(24usize))] {
+            if short.is_some() && k == 0 { continue; }
+            let mut ck = case.clone(); ck.syswrite_fault = Some((k, count, kind)); ck.syswrite_short = short;
             match run_b(&ck, None) {
               Ok(ok) => {
                 evaluations_extra += 1;
